@@ -26,6 +26,18 @@ AXIOM_ALLOW = {
     'Classical_Prop.classic': {'C15'},
 }
 
+# C15 only: Coq's primitive 63-bit integers and the standard library's axioms
+# specifying them (Coq.Numbers.Cyclic.Int63), pulled in by the `interval`
+# tactic's big-number arithmetic (Bignums over Uint63).  Standard library /
+# kernel primitives, listed by name as Print Assumptions shows them.
+for _n in ('add addc addcarryc addmuldiv compare div diveucl diveucl_21 eqb head0 int land leb lor lsl lsr ltb lxor '
+           'mod mul mulc sub subc subcarryc tail0').split():
+    AXIOM_ALLOW['PrimInt63.' + _n] = {'C15'}
+for _n in ('add_spec addc_def_spec addcarryc_def_spec addmuldiv_def_spec compare_def_spec div_spec diveucl_21_spec '
+           'diveucl_def_spec eqb_correct eqb_refl head0_spec land_spec leb_spec lor_spec lsl_spec lsr_spec ltb_spec '
+           'lxor_spec mod_spec mul_spec mulc_spec of_to_Z sub_spec subc_def_spec subcarryc_def_spec tail0_spec').split():
+    AXIOM_ALLOW['Uint63.' + _n] = {'C15'}
+
 FORBIDDEN = re.compile(r'\b(Admitted|admit|Axiom|Axioms|Parameter|Parameters|Conjecture|Conjectures|Hypothesis|Hypotheses|Variable|Variables)\b|Unset\s+Guard|bypass_check|type-in-type|impredicative-set|Admit\s+Obligations|Unset\s+Universe\s+Checking|Unset\s+Positivity')
 
 # ----------------------------------------------------------------------------
@@ -457,6 +469,13 @@ class Check:
         self.extra = {}
         self.known = load_known(prop)
         os.makedirs(os.path.join(ROOT, 'corpus', prop), exist_ok=True)
+        # replay files of earlier runs are stale (they are not committed)
+        for fn in os.listdir(os.path.join(ROOT, 'corpus', prop)):
+            if fn.startswith('viol_'):
+                try:
+                    os.remove(os.path.join(ROOT, 'corpus', prop, fn))
+                except OSError:
+                    pass
 
     # ---- proof step -------------------------------------------------------
     def proof(self, prop_files, extra_targets=()):
